@@ -335,14 +335,18 @@ fn input_snippet(
                 if arrow {
                     format!("{}{}", ansi_reset, file_line)
                 } else {
+                    // an empty range at the very end of a line has the line's newline as its
+                    // end column, and the newline is not a part of `file_line`
+                    let end = (end_col.0 as usize + 1).min(file_line.len());
+
                     format!(
                         "{}{}{}{}{}{}",
                         ansi_reset,
                         &file_line[..start_col.0 as usize],
                         ansi_err,
-                        &file_line[start_col.0 as usize..end_col.0 as usize + 1],
+                        &file_line[start_col.0 as usize..end],
                         ansi_reset,
-                        &file_line[end_col.0 as usize + 1..],
+                        &file_line[end..],
                     )
                 }
             }
